@@ -31,14 +31,30 @@ def run_cases(impl, model, cases):
     if rc2 != 0 or len(mout) != len(cases):
         raise vlib.BuildError('model driver failed rc=%d: %s' % (rc2, merr[-800:]))
     ms = [G.parse_model(l) for l in mout]
+    # the call an xcall body makes itself: image the probe must see, per the same extracted model
+    xi = [i for i, c in enumerate(cases) if c['body']['kind'] == 'xcall']
+    xms = {}
+    if xi:
+        xl = []
+        for i in xi:
+            b = cases[i]['body']
+            crets = {k: (bytes.fromhex(x) if isinstance(x, str) else x) for k, x in b['crets'].items()}
+            xl.append(G.model_line('x%d' % i, b['cproto'], [bytes.fromhex(x) for x in b['cvals']], crets, VALS_ADDR + H.CO))
+        rcx, xout, xerr = vlib.run_lines(model, xl, timeout=600)
+        if rcx != 0 or len(xout) != len(xl):
+            raise vlib.BuildError('model driver failed on nested-call lines rc=%d: %s' % (rcx, xerr[-800:]))
+        xms = {i: G.parse_model(l) for i, l in zip(xi, xout)}
     lines = []
     for i, (c, m) in enumerate(zip(cases, ms)):
         img = H.tramp_image(c['proto'], m, c['vals'], c['body'], c['junk'], VALS_ADDR)
+        if i in xms:
+            b = c['body']
+            img += G.ret_bytes_n(b['cproto'], {k: (bytes.fromhex(x) if isinstance(x, str) else x) for k, x in b['crets'].items()})
         vb = H.vals_buffer(c['proto'], c['body'], c['resvals'])
         target = 'tramp2' if c['engine'].startswith('lazy') else 'tramp'
         lines.append(' '.join(['c%d' % i, 'c06', c['engine'], target, G.hexs(H.c06_mir(c['proto'], c['body']).encode()),
                                G.hexs(vb), G.hexs(img)]))
-    rows, err = G.run_harness(vlib, impl, lines, env={'C06_DUMP': '1'})
+    rows, err = G.run_harness(vlib, impl, lines, env={'C06_DUMP': '1', 'C06_PSTK': '1'})
     # frame observations (generator listing after prologue/epilogue insertion) vs. the Frame model
     fq, fobs = [], {}
     for i, c in enumerate(cases):
@@ -60,10 +76,12 @@ def run_cases(impl, model, cases):
         r = rows.get('c%d' % i, dict(status='missing', detail='no output from harness: ' + err[-200:]))
         offs, _ = G.layout(c['proto'])
         ptrs = {k: VALS_ADDR + offs[k] for k, t in enumerate(c['proto']['args']) if t.startswith('rblk')}
+        if i in xms:
+            r = dict(r, xmodel=xms[i])
         bad = H.compare_c06(c['proto'], c['body'], m, r, c['vals'], c['resvals'], ptrs, c['engine'])
         if r.get('status') == 'ok' and r.get('out0'):
             # lazy interfaces: the first call went through the generation wrapper / thunk
-            r0 = dict(r, out=r['out0'], outs=r['outs0'], pimg=r['pimg0'])
+            r0 = dict(r, out=r['out0'], outs=r['outs0'], pimg=r['pimg0'], pstk=None)
             bad += ['first call (through the lazy-generation wrapper): ' + b
                     for b in H.compare_c06(c['proto'], c['body'], m, r0, c['vals'], c['resvals'], ptrs, c['engine'])
                     if not b.startswith(H.SRET_MSG)]
@@ -204,6 +222,22 @@ def gen_cases(chk, quick):
             continue
         for e in dict.fromkeys(engs):
             cases.append(dict(proto=p, vals=vals, resvals=resvals, body=H.gen_body(rng), engine=e, junk=junk))
+    # MIR functions that themselves call with every argument-placement kind, under register pressure, with and
+    # without frame-pointer-forcing features; the values live across the call and the callee's image are checked
+    xr = chk.rng('c06-xcall')
+
+    def xeng(rep):
+        if not quick:
+            return ENGINES
+        return ['gen0', 'gen1', 'gen2', 'gen3', xr.choice(['interp', 'lazy', 'lazybb'])] if rep == 0 else \
+            [xr.choice(['gen0', 'gen1']), xr.choice(['gen2', 'gen3', 'lazy', 'interp'])]
+    for p, b, engs in H.xcall_cases(xr, 24 if quick else 600, xeng):
+        vals, _ = G.gen_values(xr, p)
+        vals = G.fix_values(p, vals, xr)
+        resvals = H.res_values(xr, p)
+        junk = [xr.getrandbits(64) for _ in range(40)]
+        for e in dict.fromkeys(engs):
+            cases.append(dict(proto=p, vals=vals, resvals=resvals, body=b, engine=e, junk=junk))
     return cases
 
 
@@ -216,6 +250,8 @@ def replay_obj(c, bad, m):
 
 def signature(c):
     eng = 'interp' if c['engine'] == 'interp' else 'gen'
+    if c['body']['kind'] == 'xcall':
+        return 'c06:%s:xcall:%s:calls:%s' % (eng, G.proto_sig(c['proto']), G.proto_sig(c['body']['cproto']))
     return 'c06:%s:%s:%s' % (eng, c['body']['kind'] if c['body']['kind'] != 'plain' else '-', G.proto_sig(c['proto']))
 
 
@@ -296,6 +332,10 @@ def run(chk):
                   nontrivial=len(p['args']) + len(p['res']) >= 2)
         chk.dist('engine', c['engine'])
         chk.dist('body', c['body']['kind'])
+        if c['body']['kind'] == 'xcall':
+            chk.dist('xcall_argument_placement', c['body']['cproto'].get('family', '?'))
+            chk.dist('xcall_live_values', '%s ints, %s doubles' % ('0' if c['body']['ni'] == 0 else '<=6' if c['body']['ni'] <= 6 else '>6',
+                                                                  '0' if c['body']['nd'] == 0 else '<=9' if c['body']['nd'] <= 9 else '>9'))
         chk.dist('vararg', p['vararg'])
         chk.dist('nargs', min(len(p['args']), 20) // 4 * 4)
     chk.cov['rule'] = ('seeded + boundary + corpus signatures x random values x {interp shim, gen -O0..-O3, lazy} x callee bodies '
